@@ -224,6 +224,21 @@ impl<'a> Visitor for DecVisitor<'a> {
             if vres.is_ok() != fbres.is_ok() && has("C02") {
                 out.viol("C02", "from_bytes-vs-validate", id, tag, format!("validate ok={} from_bytes ok={}", vres.is_ok(), fbres.is_ok()));
             }
+            if has("C02") {
+                // the checked wrapper construction is the same acceptance test
+                match guarded(|| flatty::FlatWrap::<T, &[u8]>::from_wrapped_bytes(&*pl.slice()).map(|w| w.size())) {
+                    Obs::Ret(w) => {
+                        if w.is_ok() != vres.is_ok() {
+                            out.viol("C02", "wrap-vs-validate", id, tag, format!("validate ok={} FlatWrap::from_wrapped_bytes ok={}", vres.is_ok(), w.is_ok()));
+                        } else if let (Ok(ws), Ok(fb)) = (&w, &fbres) {
+                            if *ws != fb.1 {
+                                out.viol("C02", "wrap-size", id, tag, format!("size() through FlatWrap {} through from_bytes {}", ws, fb.1));
+                            }
+                        }
+                    }
+                    Obs::Panic(m) => out.viol("C02", "wrap-panic", id, tag, format!("FlatWrap::from_wrapped_bytes panicked: {}", m)),
+                }
+            }
 
             if has("C02") {
                 match fbres {
